@@ -13,7 +13,7 @@ Record snap : Type := mkSnap
 
 Inductive res : Type := ROk | RRej | RPanic.
 Record cfg : Type := mkCfg
-  { c_min_tip : Z; c_pc : list addr; c_pv : list addr; c_pn : list addr; c_ac : list addr; c_se : list addr; c_fix : bool; c_mg : bool; c_rr : list addr; c_rc : bool }.
+  { c_min_tip : Z; c_pc : list addr; c_pv : list addr; c_pn : list addr; c_ac : list addr; c_se : list addr; c_fix : bool; c_mg : bool; c_rr : list addr; c_rc : bool; c_ak : bool }.
 (* a whole history: starting snapshot, then (operation, result, snapshot after; None = unchanged) *)
 Inductive c16_case : Type := CHist (c : nat) (start : snap) (steps : list (op * res * option snap)).
 
@@ -36,7 +36,7 @@ Fixpoint lookup_bal (l : list ((acct * string) * Z)) (x : acct) (d : string) : Z
 Definition state_of (c : cfg) (sn : snap) : state :=
   mkState (o_recs sn) (o_idx sn) (o_reqs sn)
           (fold_left Z.max (map r_id (o_recs sn)) 0) (fold_left Z.max (map q_id (o_reqs sn)) 0)
-          (o_ukeys sn) (c_min_tip c) (c_pc c) (c_pc c) (c_pv c) (c_pn c) (c_ac c) (c_se c) [] (lookup_bal (o_bal sn)) (c_fix c) (c_mg c) (c_rr c) (c_rc c).
+          (o_ukeys sn) (c_min_tip c) (c_pc c) (c_pc c) (c_pv c) (c_pn c) (c_ac c) (c_se c) [] (lookup_bal (o_bal sn)) (c_fix c) (c_mg c) (c_rr c) (c_rc c) (c_ak c).
 
 Definition snap_matches (s : state) (sn : snap) : bool :=
   list_eqb rec_eqb (recs s) (o_recs sn) && set_eqb ent_eqb (idx s) (o_idx sn) && list_eqb req_eqb (reqs s) (o_reqs sn)
